@@ -8,7 +8,7 @@ import families as fam_mod
 ID = 'C08'
 NAMESPACE = 'VL.C08'
 LEAN_MODULES = ['VotelibProofs.Props.C08']
-GEN_MODULES = ['Divisor', 'Quota']
+GEN_MODULES = ['Divisor', 'Quota', 'Threshold', 'RankScore']
 REQUIRED = ['getNBest_shape', 'plurality_shape', 'quotaSelector_refusals', 'ha_shape', 'haResult_sum', 'ge_keys_nodup',
             'electedOf_map_cand', 'electedOf_append', 'electedOf_replicate_tie', 'getNBest_shape_of_keys',
             'lr_shape', 'qd_shape', 'quota_pos', 'lr_rounded_quota_zero_witness',
@@ -25,10 +25,14 @@ REQUIRED = ['getNBest_shape', 'plurality_shape', 'quotaSelector_refusals', 'ha_s
             'score_shape', 'score_refusals', 'score_total', 'score_refusals_partial', 'score_refusals_witness', 'score_total_trunc',
             'spav_shape', 'spav_refusals', 'pav_shape', 'pavStep_shape', 'pav_refusals', 'pavStep_refusals', 'mj_shape', 'mjPlus_total',
             'mjPlus_refusals', 'mjDefault_refusals_partial', 'mj_refusals_partial', 'mj_refusals_witness', 'star_shape', 'star_refusals',
-            'star_total', 'star_refusals_partial', 'allocated_shape_partial', 'allocated_shape_witness', 'allocated_refusals_partial',
+            'star_total', 'star_refusals_partial', 'allocated_shape', 'allocated_shape_tie_fixed', 'allocated_refusals_partial',
             'allocated_refusals_witness', 'mem_scoreCands', 'scoreCands_nodup',
             # Lemmas/ShapeQuotaSubtract.lean
             'qd_subtract_shape', 'qd_subtract_refusals', 'lr_subtract_shape', 'lr_subtract_refusals', 'qd_subtract_ties',
+            # Lemmas/ShapeSequential.lean (models VotelibModel/ShapeSequential.lean)
+            'baldwin_answers', 'baldwin_shape', 'baldwin_refusals', 'bucklin_n_shape_partial', 'bucklin_n_shape_of_full',
+            'bucklin_n_one_tie', 'bucklin_n_answers', 'bucklin_n_refusals', 'bucklin_n_refusals_all', 'bucklin_n_short_witness',
+            'prefix_bucklin_decouple_offset_witness',
             # Lemmas/ShapeSTV.lean
             'stv_shape', 'stv_gregory_shape', 'stv_refusals', 'stv_refusals_partial', 'stv_fuel_unreachable', 'stv_gregory_no_fuel',
             'stv_default_refusals', 'stv_default_total', 'stv_droop_refusals', 'stv_hare_refusals', 'stvd_shape', 'stvd_gregory_shape',
@@ -47,9 +51,9 @@ PROVED_FAMILIES = ['plurality', 'ha_d_hondt', 'ha_sainte_lague', 'ha_imperiali',
                    'rel_threshold_5pc', 'rel_threshold_third', 'abs_threshold_2', 'openlist_jump_5pc', 'openlist_quota_precedence',
                    'openlist_tiebreaker_plurality', 'threshold_alternative', 'aux_input_order',
                    'lr_imperiali_subtract', 'lr_hagenbach_bischoff_subtract', 'qd_imperiali_subtract',
-                   'approval_pav', 'approval_spav', 'score_mean', 'score_sum0', 'score_median', 'majority_judgment_plus', 'star']
+                   'baldwin', 'approval_pav', 'approval_spav', 'score_mean', 'score_sum0', 'score_median', 'majority_judgment_plus', 'star']
 NAMES = Names(prefix='cand')
-POSITIONAL = {'positional_borda': {'s': 'Borda', 'base': 1}, 'positional_borda0': {'s': 'Borda', 'base': 0},
+POSITIONAL_CFG = {'positional_borda': {'s': 'Borda', 'base': 1}, 'positional_borda0': {'s': 'Borda', 'base': 0},
               'positional_dowdall': {'s': 'Dowdall'}, 'positional_geometric': {'s': 'Geometric', 'base': 2},
               'positional_modified_borda': {'s': 'ModifiedBorda'}, 'positional_fixed_top3': {'s': 'FixedTop', 'top': 3}}
 STV = {'stv_gregory_hare': ('hare', 'selector'), 'stv_gregory_droop': ('droop', 'selector'),
@@ -63,8 +67,10 @@ OPENLIST = {'openlist_jump_5pc': {'jump_fraction': '1/20', 'quota': None, 'quota
 CARDINAL = {'score_mean': {'op': 'score', 'function': 'mean'}, 'score_sum0': {'op': 'score', 'function': 'sum', 'unscored': '0'},
             'score_median': {'op': 'score', 'function': 'median_low'},
             'majority_judgment': {'op': 'mj', 'tie_breaking': 'default'}, 'majority_judgment_plus': {'op': 'mj', 'tie_breaking': 'plus'},
+            'score_median_trunc_quarter': {'op': 'score', 'function': 'median_low', 'truncation': '1/4'},
             'star': {'op': 'star', 'added_count': 1, 'added_fraction': '0'},
             'allocated_score_hare': {'op': 'allocated', 'quota': 'hare'}}
+POSITIONAL = tuple(POSITIONAL_CFG)
 CONDORCET_MODELLED = ('rankedpairs_winvotes', 'rankedpairs_margins', 'rankedpairs_pwo', 'copeland_2o', 'copeland_raw', 'schulze',
                       'kemeny_young', 'minimax_winvotes', 'minimax_margins', 'minimax_pwo')
 _FAMS = None
@@ -99,6 +105,9 @@ def local_families():
           kind='dist', declared=True),
         F('qd_imperiali_subtract', 'simple', lambda: vp.QuotaDistributor('imperiali', on_overaward='subtract'), kind='dist',
           declared=True, partial=True),
+        # score voting with truncation (a configuration of the score family)
+        F('score_median_trunc_quarter', 'score', lambda: __import__('votelib.evaluate.cardinal', fromlist=['x']).ScoreVoting(
+            'median_low', truncation=Fraction(1, 4)), declared=True, small_weights=True),
         F('openlist_jump_5pc', 'simple', lambda: _WithList(vo.ThresholdOpenList(jump_fraction=Fraction(5, 100)))),
         F('openlist_quota_precedence', 'simple',
           lambda: _WithList(vo.ThresholdOpenList(quota_function='droop', quota_fraction=Fraction(1, 2), accept_equal=True,
@@ -178,15 +187,16 @@ PARTIAL_FAMILIES = {
        for k in ('winvotes', 'margins', 'pwo')},
     'majority_judgment': 'mjDefault_refusals (only declared refusals) is FALSE of the code (StatisticsError: mj_refusals_witness, open finding '
                          'C08-mj-statistics-error); proved: mj_shape (full), mjDefault_refusals_partial (VotingSystemError or StatisticsError)',
-    'allocated_score_hare': 'allocated_shape (exactly n places) and allocated_refusals are FALSE of the code (allocated_shape_witness: a tie '
-                            'for several seats is listed once; allocated_refusals_witness: ValueError / IndexError; open findings); proved: '
-                            'allocated_shape_partial, allocated_refusals_partial',
+    'allocated_score_hare': 'allocated_refusals (only declared refusals) is FALSE of the code (allocated_refusals_witness: ValueError / IndexError when '
+                            'the ballots run out; open findings); proved: allocated_shape (FULL since fix 4ae6629), allocated_refusals_partial',
     'benham': 'benham_refusals is FALSE of the code (IndexError: benham_refusals_witness, open findings C05-benham-*); proved for one seat: '
               'benham_shape, benham_refusals_partial; n_seats >= 2 is not modelled',
     'tideman_alternative': 'tideman_refusals is FALSE of the code (IndexError/KeyError: tideman_refusals_witness, open findings C05-tideman-*); '
                            'proved for one seat: tideman_shape, tideman_refusals_partial; n_seats >= 2 is not modelled',
-    'bucklin': 'bucklin_shape is FALSE of the code (empty answer: bucklin_short_witness, open finding C08-preference-addition-short-list); '
-               'proved for one seat (C17 model): bucklin_shape_partial, bucklin_refusals, bucklin_answers; n_seats >= 2 is not modelled',
+    **{k: 'bucklin_n_shape (exactly n places) is FALSE of the code (bucklin_n_short_witness / bucklin_short_witness: fewer than n candidates ever '
+          'pass the majority quota; open finding C08-preference-addition-short-list); proved for every n, every coefficient function, with and '
+          'without splitting of shared ranks: bucklin_n_shape_partial (everything but the length), bucklin_n_one_tie (a short answer has no tie), '
+          'bucklin_n_answers + bucklin_n_refusals (no error outcome)' for k in ('bucklin', 'oklahoma')},
 }
 UNPROVED = []
 UNMODELLED = []
@@ -202,15 +212,24 @@ def _bookkeeping():
     except Exception:
         pass
 _bookkeeping()
-REQUIRED_COUNTERS = ['sel', 'dist', 'seatless', 'tie_in_result', 'modelled', 'refusal', 'few_votes', 'all_equal']
-RULE = ('every evaluator family built from the public selector/distributor classes of votelib.evaluate.* with its admissible vote type '
-        '(simple, approval, ranked incl. shared ranks, score, pairwise through the real converter) x generated profiles with positive '
-        'total weight (2-6 candidates) x every 1 <= n_seats <= candidates present. Non-trivial = result is not an error; distinct by '
-        'canonical request. Public classes not reachable through the family table are listed under unmodelled (wrappers are C14, '
-        'overhang C15, open lists C16, biproportional C07, order/random-based selectors are outside the quantifier of C10 but inside C08: see list).')
-NOT_VERIFIED = ['families listed under unproved have no Lean shape theorem in this namespace yet (shape theorems of STV, largest remainder, '
-                'Condorcet and approval families live with the property owning their model): for them the shape is decided by the oracle only',
-                'QuotaDistributor is documented as not awarding the full number of seats: the clause "sum to exactly the seats to fill" is read as <= for it']
+REQUIRED_COUNTERS = ['sel', 'dist', 'seatless', 'tie_in_result', 'modelled', 'refusal', 'few_votes', 'all_equal', 'truncation_empties', 'rotation']
+RULE = ('every evaluator family built from the public selector/distributor classes of votelib.evaluate.* (shared table harness/families.py + the local '
+        'list in this module: open list, list tie-breaker, auxiliary selectors, AlternativeThresholds, the subtract over-award policy, score voting with '
+        'truncation) with its admissible vote type (simple, approval, ranked incl. shared ranks, score, pairwise through the real converter) x generated '
+        'profiles with positive total weight (2-6 candidates) x 1 <= n_seats <= candidates present; directed cases: very few votes for many seats, all '
+        'parties equal, a truncation that empties a candidate. Thorough adds every n per profile and a small-scope exhaustive enumeration (all simple '
+        'profiles over <= 3 parties with counts 0..3 / 4 parties with counts 0..2, all ranked profiles of <= 2 distinct strict ballots over 3 candidates, '
+        'all approval profiles of <= 2 distinct ballots over 3 candidates, weights 1..2, every family, every n). Non-trivial = result is not an error; '
+        'distinct by canonical request. Public classes no family reaches are listed under unmodelled with the property that exercises them.')
+NOT_VERIFIED = ['families listed under unproved: the entry names the statement that is FALSE of the current code (with its Lean witness and the open finding) and '
+                'what is proved instead; shape_aux_* (random / md5 based selectors) have no Lean model: shape decided by the oracle only',
+                'QuotaDistributor and QuotaSelector are documented as not filling all seats: "exactly n" is read as "at most n" for them (DESIGN 12.2); '
+                'candidates present for a Condorcet evaluator = candidates occurring in a pairwise entry',
+                'correspondence is order-insensitive among individually elected candidates where the implementation iterates a frozenset (approval and '
+                'score ballots, shared ranks): the elected set and the tie places are compared; AllocatedScore: ValueError and IndexError are identified '
+                '(which comes first depends on the iteration order of a Tie, open finding C12-allocated-score-tie-order)',
+                'Benham / Tideman alternative are modelled for one seat only (C05): n >= 2 raises AssertionError / TypeError (outside sentence 3: observation)',
+                'the Condorcet evaluators are modelled on the pairwise dictionary produced by the REAL RankedToCondorcetVotes converter (C13 owns its model)']
 
 
 def generate(rng, tier):
@@ -235,6 +254,16 @@ def generate(rng, tier):
         k = rng.randint(1, 3)
         yield {'op': 'shape', 'family': fam, 'prof': [[i, str(k)] for i in range(m)], 'n': rng.randint(1, m - 1),
                '_tags': ['dist', 'all_equal']}
+    # directed: a full rotation (everybody tied everywhere) for all but one seat - the multi-seat tie branches of every ranked family
+    for f in F:
+        if f.vtype in ('ranked', 'ranked_noshared') and f.n_seats:
+            m = rng.randint(3, 4)
+            base = rng.sample(range(m), m)
+            w = str(rng.choice([1, 2, 3]))
+            yield {'op': 'shape', 'family': f.name, 'prof': [[base[i:] + base[:i], w] for i in range(m)], 'n': m - 1,
+                   '_tags': [f.kind, 'rotation']}
+    yield {'op': 'shape', 'family': 'score_median_trunc_quarter', 'prof': [[[[0, 3], [1, 2]], '2'], [[[0, 1]], '8']], 'n': 1,
+           '_tags': ['sel', 'truncation_empties']}
     if tier == 'thorough':
         yield from small_scope(F)
         # every n for a fixed profile
@@ -361,7 +390,7 @@ def model_line(case):
         return {'op': 'eval', 'name': f[len('condorcet_'):], 'n': case['n'],
                 'votes': [[NAMES.i(a), NAMES.i(b), num_str(w)] for (a, b), w in pw.items()]}
     if f in POSITIONAL:
-        return {'op': 'positional_plurality', 'scorer': POSITIONAL[f], 'votes': case['prof'], 'n': case['n']}
+        return {'op': 'positional_plurality', 'scorer': POSITIONAL_CFG[f], 'votes': case['prof'], 'n': case['n']}
     if f in ('approval_av', 'approval_sav'):
         return {'op': 'approval_plurality', 'split': f == 'approval_sav', 'votes': case['prof'], 'n': case['n']}
     if f in STV:
@@ -382,6 +411,10 @@ def model_line(case):
                 'function': 'mean', 'unscored': None, 'min_count': 0, 'truncation': '0', 'bottom': '0'}
         line.update(CARDINAL[f])
         return line
+    if f == 'baldwin':
+        return {'op': 'baldwin', 'votes': case['prof'], 'n': case['n']}
+    if f in ('bucklin', 'oklahoma'):
+        return {'op': 'preference_addition', 'votes': case['prof'], 'n': case['n'], 'coef': f, 'split': True}
     if f == 'aux_input_order':
         return {'op': 'input_order', 'votes': case['prof'], 'n': case['n']}
     if f == 'threshold_alternative':
@@ -425,9 +458,12 @@ def compare(case, iobs, mobs):
         # compares the shape: elected set + tie places)
         if isinstance(mobs, dict) and 'sel' in mobs:
             mobs = mobs['sel']
+        if case['family'] == 'allocated_score_hare' and isinstance(iobs, dict) and isinstance(mobs, dict) and \
+                {iobs.get('err'), mobs.get('err')} <= {'ValueError', 'IndexError'}:
+            return None      # which of the two crashes comes first depends on the iteration order of a Tie (open finding C12-allocated-score-tie-order)
         a, b = sel_unordered(iobs), sel_unordered(mobs)
         return None if a == b else f'impl={json.dumps(a)} model={json.dumps(b)} (order-insensitive: frozenset ballots)'
-    if (case['family'] in POSITIONAL and has_shared(case['prof'])) or case['family'] in ('approval_av', 'approval_sav'):
+    if (case['family'] in POSITIONAL + ('baldwin', 'bucklin', 'oklahoma') and has_shared(case['prof'])) or case['family'] in ('approval_av', 'approval_sav'):
         a, b = sel_unordered(iobs), sel_unordered(mobs)
         return None if a == b else f'impl={json.dumps(a)} model={json.dumps(b)} (order-insensitive: frozenset ballots)'
     if case['family'].startswith('condorcet_'):
@@ -488,10 +524,17 @@ def shrink_candidates(case):
         yield c
 
 
-TECHNIQUE = 'Lean 4 shape theorems (selection and distribution schemata) for the modelled evaluators + shape oracle on the implementation over every evaluator family found by reflection'
-LEVEL_TEXT = ('The result-shape schemata (exactly n entries, candidates from the votes, nobody twice, a tie repeated once per contested seat and larger than '
-              'those seats; positive integer awards summing to the seats to fill) are proved in Lean for all inputs for plurality/get_n_best, the quota selector '
-              '(incl. its refusals) and all highest-averages methods; for all other evaluator families the shape and the exception class are checked on the '
-              'implementation for generated profiles and every admissible n (families without Lean theorem are listed as unproved).')
-LEVEL_NOTE = ('Trusted: Lean kernel + standard axioms; C09/C01 models tied to code by correspondence. Partial: most families are decided by the oracle only; classes '
-              'not reachable through the family table are listed under unmodelled.')
+TECHNIQUE = ('Lean 4 shape and refusal theorems (selection / distribution / seat-less schemata) about the executable models of every evaluator family + '
+             'differential correspondence of those models with the implementation + shape oracle on the implementation over every family found by reflection')
+LEVEL_TEXT = ('For every modelled evaluator family the result-shape schema (exactly n entries, candidates from the votes, nobody twice, a tie repeated once per '
+              'contested seat and larger than those seats; positive integer awards to parties of the votes summing to the seats to fill; distinct candidates for '
+              'seat-less selectors) and the refusal clause (the only error outcomes are VotingSystemError / NotImplementedError) are Lean theorems for ALL inputs '
+              'under explicit decidable well-formedness: plurality, quota selector, highest averages, largest remainder and quota distributor (all three '
+              'over-award policies), STV selector and distributor, Copeland (both), Schulze, minimax (three scorers), Kemeny-Young, positional voting (six scorers), '
+              'AV, SAV, PAV, SPAV, score voting, majority judgment (shape; refusals for tie_breaking=plus), STAR, Baldwin, thresholds, open list, list tie-breaker, '
+              'Condorcet winner / Smith / Schwartz sets, InputOrderSelector. Where the code violates the schema the strongest true part is proved (_partial) and the '
+              'violation is a kernel-checked witness + open finding: ranked pairs and PreferenceAddition (short lists), allocated score (tie listed once, ValueError / '
+              'IndexError), majority judgment default tie-break (StatisticsError), Benham / Tideman (IndexError / KeyError), rounded quotas that reach 0 '
+              '(ZeroDivisionError), score truncation (StatisticsError).')
+LEVEL_NOTE = ('Trusted: Lean kernel + standard axioms; the models are tied to the code by the correspondence run of this check (and of the owning properties). '
+              'Partial: 4 random/md5-based auxiliary selectors are decided by the oracle only; wrappers and nested-vote evaluators are exercised by C14/C07/C18.')
